@@ -9,13 +9,13 @@ func registerProps() {
 		Title:       "Key-value read-after-write: every read returns the last successful write",
 		Rules:       []string{"R-TXN", "R-COMMIT", "R-ROWCOMPLETE", "R-READ-NULL", "R-READ-ONCE", "R-LIVE", "R-COLL", "R-ERRPROP", "R-EVT-ROW", "R-RMW", "R-ERR-OVERWRITE", "R-EXP", "R-FRESH-DECODE"},
 		Scope:       map[string][]string{"R-RMW": {"WriteSubDoc", "SubdocInsert"}},
-		Explanation: "Decides necessary structural clauses, not the behaviour: (a) an operation that fails leaves the document as it was <= every row write runs on the handle of the one transaction (R-TXN) that the runner rolls back on every failing path and whose commit error is reported (R-COMMIT), and no statement error inside a transaction closure is dropped (R-ERRPROP) nor is a stored error replaced by a later step's before it was examined (R-ERR-OVERWRITE); (b) the last successful write is what is stored <= every body/tombstone/xattr statement assigns the complete row (R-ROWCOMPLETE) and the values bound into it are the operation's own (R-EVT-ROW); a read-modify-write of a body starts every attempt from a fresh read, so that what it stores is the document it last read plus its own change (R-RMW, sub-document writers); (c) missing if deleted <= the read helper maps a NULL body to the missing error (R-READ-NULL), read-side liveness tests use the body column (R-LIVE), reads are scoped to the receiver's collection (R-COLL).",
+		Explanation: "Decides necessary structural clauses, not the behaviour: (a) an operation that fails leaves the document as it was <= every row write runs on the handle of the one transaction (R-TXN) that the runner rolls back on every failing path and whose commit error is reported (R-COMMIT), and no statement error inside a transaction closure is dropped (R-ERRPROP) nor is a stored error replaced by a later step's before it was examined (R-ERR-OVERWRITE); (b) the last successful write is what is stored <= every body/tombstone/xattr statement assigns the complete row (R-ROWCOMPLETE) and the values bound into it are the operation's own (R-EVT-ROW); a read-modify-write of a body starts every attempt from a fresh read, so that what it stores is the document it last read plus its own change (R-RMW, sub-document writers); (c) missing if deleted <= the read helper maps a NULL body to the missing error (R-READ-NULL), read-side liveness tests use the body column (R-LIVE), reads are scoped to the receiver's collection (R-COLL). A read outside a transaction is one statement (R-READ-ONCE); the expiry a write stores does not depend on the supplied value being non-zero (R-EXP/e); maps decoded into inside a loop are fresh per iteration (R-FRESH-DECODE).",
 		NotDecided:  "equality of returned bytes/CAS/expiry with a model over arbitrary histories; JSON encode/decode; nil bodies passed to Set/Add; purge visibility; value-level control flow inside Update's callback handling.",
 	}
 	propTable["C02"] = PropDef{
 		Title:       "Optimistic concurrency: a CAS-conditional write succeeds iff the CAS is current",
 		Rules:       []string{"R-CAS", "R-RMW", "R-INSERT-GUARD", "R-TXN", "R-COMMIT", "R-FLAGS", "R-COLL"},
-		Explanation: "For each of the nine collection entry points with an expected-CAS parameter, every statement that writes body or xattrs is guarded inside the same transaction closure by a SQL conjunct cas = <expected> or by a Go comparison with documents.cas read through the transaction, decided by cut-reachability on the SSA control-flow graph (R-CAS); sub-document writers and Update loops write back with the CAS they read (R-RMW); a rejected write changes nothing because it shares the rolled-back transaction (R-TXN, R-COMMIT); insert semantics for CAS 0 / AddOnly are governed by the conflict guard (R-INSERT-GUARD) and the option flags are enforced (R-FLAGS).",
+		Explanation: "For each of the nine collection entry points with an expected-CAS parameter, every statement that writes body or xattrs is guarded inside the same transaction closure by a SQL conjunct cas = <expected> or by a Go comparison with documents.cas read through the transaction, decided by cut-reachability on the SSA control-flow graph (R-CAS); sub-document writers and Update loops write back with the CAS they read (R-RMW); a rejected write changes nothing because it shares the rolled-back transaction (R-TXN, R-COMMIT); insert semantics for CAS 0 / AddOnly are governed by the conflict guard (R-INSERT-GUARD) and the option flags are enforced (R-FLAGS). The CAS that is compared is read from the row of the receiver's own collection (R-COLL).",
 		NotDecided:  "behaviour of real interleavings (rests on SQLite isolation and the bucket mutex, trusted); which error value is returned; the pinned CAS-free resurrection of a tombstone by AddOnly.",
 	}
 	propTable["C03"] = PropDef{
@@ -39,7 +39,7 @@ func registerProps() {
 	propTable["C06"] = PropDef{
 		Title:       "Insert-only writes never overwrite a live document, always create an absent one",
 		Rules:       []string{"R-INSERT-GUARD", "R-FLAGS", "R-TOMB", "R-CAS", "R-LIVE"},
-		Explanation: "Every INSERT..ON CONFLICT DO UPDATE on documents (except the upsert primitive) restricts its update, as a top-level AND-conjunct, to rows without a body and has its RowsAffected consulted; Add/AddRaw reach only such guarded inserts (R-INSERT-GUARD); callers of the unconditional upsert primitive decide existence in Go through option flags that guard error returns (R-FLAGS); the guard's flag means 'no body' because the flag and the body are written together (R-TOMB); WriteCas' CAS-less insert variant is reachable only for CAS 0 / AddOnly (R-CAS).",
+		Explanation: "Every INSERT..ON CONFLICT DO UPDATE on documents (except the upsert primitive) restricts its update, as a top-level AND-conjunct, to rows without a body and has its RowsAffected consulted; Add/AddRaw reach only such guarded inserts (R-INSERT-GUARD); callers of the unconditional upsert primitive decide existence in Go through option flags that guard error returns (R-FLAGS); the guard's flag means 'no body' because the flag and the body are written together (R-TOMB); WriteCas' CAS-less insert variant is reachable only for CAS 0 / AddOnly (R-CAS). Whether the row read is live is decided by NULL-ness of the body or the flag, never by the body's length (R-LIVE).",
 		NotDecided:  "per-history truth of the 'iff'; nil bodies.",
 	}
 	propTable["C07"] = PropDef{
@@ -63,7 +63,7 @@ func registerProps() {
 	propTable["C10"] = PropDef{
 		Title:       "Durability and crash atomicity of on-disk buckets",
 		Rules:       []string{"R-TXN", "R-ONE-TXN", "R-COMMIT", "R-HLC", "R-HLC-MARK-SQL", "R-DSN", "R-EXP-SQL", "R-OPENMODE", "R-OPEN-ERR", "R-DROP"},
-		Explanation: "An open that fails after the bucket was registered would delete a store other handles share: no return carries an error after registration (R-OPEN-ERR). One transaction per operation containing row, marks and index rows (R-TXN, R-ONE-TXN, R-HLC/MARK, R-HLC-MARK-SQL); success is reported only after a successful Commit (R-COMMIT); durability options of the connection string (R-DSN); the reopen path keeps identity (schema initialised only when user_version is 0: R-OPENMODE), re-seeds the clock (R-HLC/SEED) and re-arms expiry from a query over all rows with exp > 0, overdue ones included (R-EXP-SQL, R-OPENMODE).",
+		Explanation: "An open that fails after the bucket was registered would delete a store other handles share: no return carries an error after registration (R-OPEN-ERR). One transaction per operation containing row, marks and index rows (R-TXN, R-ONE-TXN, R-HLC/MARK, R-HLC-MARK-SQL); success is reported only after a successful Commit (R-COMMIT); durability options of the connection string (R-DSN); the reopen path keeps identity (schema initialised only when user_version is 0: R-OPENMODE), re-seeds the clock (R-HLC/SEED) and re-arms expiry from a query over all rows with exp > 0, overdue ones included (R-EXP-SQL, R-OPENMODE). A drop is keyed by scope and name in the database, not by per-handle cached state (R-DROP).",
 		NotDecided:  "SQLite/WAL/OS crash behaviour (trusted base); that acknowledged data is physically on disk.",
 	}
 	propTable["C11"] = PropDef{
@@ -75,7 +75,7 @@ func registerProps() {
 	propTable["C12"] = PropDef{
 		Title:       "A non-stale view query equals the map function applied to the current documents",
 		Rules:       []string{"R-VIEW", "R-VIEW-MARK", "R-COLL", "R-DROP", "R-ONE-TXN", "R-TXN", "R-VIEW-PARAMS", "R-HLC", "R-FRESH-DECODE"},
-		Explanation: "The incremental index update selects documents above the last indexed CAS, which is complete only if CAS order is commit order: the CAS is drawn inside the transaction closure under the bucket mutex (R-HLC/CALL). Every honoured query option is still read (R-VIEW-PARAMS). In the index-update closure the obsolete-row delete and the re-map select use the same comparator on documents.cas and the same bound mark, and the view's mark is set to the collection mark read through the same transaction (R-VIEW, R-TXN); every transaction that changes a document advances the collection mark (R-VIEW-MARK); the row query orders by (mapped.key, documents.key) in one direction with the range operators paired to min/max (R-VIEW); the compiled map function is reused from the cache only when its source is unchanged (R-VIEW); replacing a design document is one transaction whose delete precedes the inserts (R-VIEW, R-ONE-TXN); index rows are scoped and cascade (R-COLL, R-DROP).",
+		Explanation: "The incremental index update selects documents above the last indexed CAS, which is complete only if CAS order is commit order: the CAS is drawn inside the transaction closure under the bucket mutex (R-HLC/CALL). Every honoured query option is still read (R-VIEW-PARAMS). In the index-update closure the obsolete-row delete and the re-map select use the same comparator on documents.cas and the same bound mark, and the view's mark is set to the collection mark read through the same transaction (R-VIEW, R-TXN); every transaction that changes a document advances the collection mark (R-VIEW-MARK); the row query orders by (mapped.key, documents.key) in one direction with the range operators paired to min/max (R-VIEW); the compiled map function is reused from the cache only when its source is unchanged (R-VIEW); replacing a design document is one transaction whose delete precedes the inserts (R-VIEW, R-ONE-TXN); index rows are scoped and cascade (R-COLL, R-DROP). The map function's input is decoded into fresh variables for every document (R-FRESH-DECODE).",
 		NotDecided:  "JavaScript map/reduce evaluation, the collation function, parameter post-processing in sg-bucket.",
 	}
 	propTable["C13"] = PropDef{
@@ -87,32 +87,32 @@ func registerProps() {
 	propTable["C14"] = PropDef{
 		Title:       "Expiry: documents live until their expiry time and are tombstoned soon after",
 		Rules:       []string{"R-EXP-SQL", "R-EXP", "R-EVT-ROW", "R-ROWCOMPLETE", "R-OPENMODE", "R-TIMER", "R-OPTS-CARRY"},
-		Explanation: "PreserveExpiry and the other write options reach the writer unchanged (R-OPTS-CARRY). Every expiry bound into a statement is absolute (passed through the offset-to-absolute function), preserved from the row, or 0 (R-EXP/a); every write unit that stores a possibly non-zero expiry leaves its closure with an event carrying that same value, or arms the timer itself with it (R-EXP/b, R-EVT-ROW/exp); the arm function re-arms iff cur == 0 or exp < cur, the callback clears the deadline and re-arms from the min-expiry query, the open function re-arms when the schema existed (R-EXP/c-e, R-OPENMODE); the expiry scan and min query predicates (R-EXP-SQL); tombstoning clears expiry (R-ROWCOMPLETE); the offset rule 0 < exp <= 30 days (R-EXP/h).",
+		Explanation: "PreserveExpiry and the other write options reach the writer unchanged (R-OPTS-CARRY). Every expiry bound into a statement is absolute (passed through the offset-to-absolute function), preserved from the row, or 0 (R-EXP/a); every write unit that stores a possibly non-zero expiry leaves its closure with an event carrying that same value, or arms the timer itself with it (R-EXP/b, R-EVT-ROW/exp); the arm function re-arms iff cur == 0 or exp < cur, the callback clears the deadline and re-arms from the min-expiry query, the open function re-arms when the schema existed (R-EXP/c-e, R-OPENMODE); the expiry scan and min query predicates (R-EXP-SQL); tombstoning clears expiry (R-ROWCOMPLETE); the offset rule 0 < exp <= 30 days (R-EXP/h). The shared timer is created only when none is pending and stopped only by the store's shutdown routine (R-TIMER).",
 		NotDecided:  "all timing ('before T', 'within a few seconds'); timer goroutine scheduling.",
 	}
 	propTable["C15"] = PropDef{
 		Title:       "Checkpointed feeds resume without skipping a mutation",
 		Rules:       []string{"R-CHECKPOINT", "R-ATOMIC-ENQ", "R-BACKFILL", "R-BACKFILL-GAP", "R-QUEUE", "R-BACKFILL-COND", "R-FEEDMAP-WRITERS", "R-EVT-FEEDEVENT", "R-HLC"},
-		Explanation: "Resume starts at checkpoint+1 with an inclusive lower bound (R-CHECKPOINT, R-BACKFILL); the feed loop advances its delivered-CAS only from the event just passed to the callback and only upwards, and persists exactly that field (R-CHECKPOINT); its premise, CAS-ordered delivery, needs FIFO queues, enqueue inside the commit's critical section and a backfill that is not interleaved with live events (R-QUEUE, R-ATOMIC-ENQ, R-BACKFILL-GAP).",
+		Explanation: "Resume starts at checkpoint+1 with an inclusive lower bound (R-CHECKPOINT, R-BACKFILL); the feed loop advances its delivered-CAS only from the event just passed to the callback and only upwards, and persists exactly that field (R-CHECKPOINT); its premise, CAS-ordered delivery, needs FIFO queues, enqueue inside the commit's critical section and a backfill that is not interleaved with live events (R-QUEUE, R-ATOMIC-ENQ, R-BACKFILL-GAP). The snapshot is unconditional given the arguments (R-BACKFILL-COND); registry entries are only appended to and the fan-out withholds no event from a registered feed (R-FEEDMAP-WRITERS, R-EVT-FEEDEVENT); CAS order is commit order because the CAS is drawn inside the transaction closure (R-HLC).",
 		NotDecided:  "the union-of-runs behaviour itself.",
 	}
 	propTable["C16"] = PropDef{
 		Title:       "Feeds terminate cleanly and independently",
 		Rules:       []string{"R-DONE", "R-FEED-START", "R-LOOPVAR", "R-QUEUE", "R-SHUTDOWN", "R-FEEDMAP", "R-FEEDMAP-WRITERS", "R-GUARDED", "R-WAIT-LOCK"},
-		Explanation: "The feed loop closes its done channel by a deferred close guarded only by 'channel is non-nil', starts its terminator goroutine whenever a terminator is given, and calls the callback only for non-nil events; per-collection done channels are fresh, passed to their feed, and coalesced by one goroutine that does not capture a loop variable (R-DONE, R-LOOPVAR); every started feed is registered or has its end marker (R-FEED-START); close wakes the puller (R-QUEUE); shutdown walks the shared registry before closing the database (R-SHUTDOWN); stopping a collection's feeds touches only its own registry entry (R-FEEDMAP); the registry is accessed under the bucket mutex (R-GUARDED).",
+		Explanation: "The feed loop closes its done channel by a deferred close guarded only by 'channel is non-nil', starts its terminator goroutine whenever a terminator is given, and calls the callback only for non-nil events; per-collection done channels are fresh, passed to their feed, and coalesced by one goroutine that does not capture a loop variable (R-DONE, R-LOOPVAR); every started feed is registered or has its end marker (R-FEED-START); close wakes the puller (R-QUEUE); shutdown walks the shared registry before closing the database (R-SHUTDOWN); stopping a collection's feeds touches only its own registry entry (R-FEEDMAP); the registry is accessed under the bucket mutex (R-GUARDED). Registry entries are only appended to, never edited in place (R-FEEDMAP-WRITERS); no lock needed by the feed goroutine is held while waiting for it (R-WAIT-LOCK); a closed queue yields nothing (R-QUEUE).",
 		NotDecided:  "actual goroutine exit, starvation under load.",
 	}
 	propTable["C17"] = PropDef{
 		Title:       "Revision sequence number counts the mutations of a key",
 		Rules:       []string{"R-REV", "R-ROWCOMPLETE", "R-EVT-ROW", "R-BACKFILL", "R-EVT-CONV", "R-COLL", "R-EVT-FEEDEVENT"},
-		Explanation: "In every write unit the value bound to revSeqNo is (the row's revSeqNo read through the same transaction, or 0 when there is no row) + 1, on every path (R-REV); every kind of write unit assigns the column (R-ROWCOMPLETE); the event carries the same term (R-EVT-ROW/revSeqNo) and the converter and backfill map it to RevNo (R-EVT-CONV, R-BACKFILL); the virtual xattrs format the revSeqNo of their own SELECT (R-REV).",
+		Explanation: "In every write unit the value bound to revSeqNo is (the row's revSeqNo read through the same transaction, or 0 when there is no row) + 1, on every path (R-REV); every kind of write unit assigns the column (R-ROWCOMPLETE); the event carries the same term (R-EVT-ROW/revSeqNo) and the converter and backfill map it to RevNo (R-EVT-CONV, R-BACKFILL); the virtual xattrs format the revSeqNo of their own SELECT (R-REV). The revision number that is incremented is read from the row of the receiver's collection (R-COLL); the keys-only copy of a feed event is a copy of the whole event, RevNo included (R-EVT-FEEDEVENT).",
 		NotDecided:  "numbering across purge/re-create histories beyond 'absent row counts from 0'.",
 	}
 	propTable["C18"] = PropDef{
 		Title:       "Sub-document writes change only the addressed property, CAS-safely",
 		Rules:       []string{"R-RMW", "R-CAS", "R-FRESH-DECODE"},
 		Scope:       map[string][]string{"R-RMW": {"WriteSubDoc", "SubdocInsert"}, "R-CAS": {"WriteCas"}},
-		Explanation: "The sub-document writer reads into a variable that is fresh in every iteration, compares a caller-supplied CAS with the CAS it read before writing, writes back through the CAS-conditional entry point with the read CAS, and retries only on a CAS mismatch (R-RMW); that entry point's own guard is R-CAS.",
+		Explanation: "The sub-document writer reads into a variable that is fresh in every iteration, compares a caller-supplied CAS with the CAS it read before writing, writes back through the CAS-conditional entry point with the read CAS, and retries only on a CAS mismatch (R-RMW); that entry point's own guard is R-CAS. The document is decoded into a fresh map on every attempt (R-FRESH-DECODE).",
 		NotDecided:  "JSON path semantics (including null parents), preservation of the other properties (value level), GetSubDocRaw's result.",
 	}
 	propTable["C19"] = PropDef{
@@ -124,7 +124,7 @@ func registerProps() {
 	propTable["C20"] = PropDef{
 		Title:       "Shutdown is safe: no panic, deadlock or leaked goroutine at any timing",
 		Rules:       []string{"R-LOCK-PAIR", "R-LOCK-ORDER", "R-GUARDED", "R-TXN-READS", "R-SHUTDOWN", "R-CLOSED", "R-FEEDMAP", "R-BG-PANIC", "R-TIMER", "R-DONE", "R-LOOPVAR", "R-WAIT-LOCK"},
-		Explanation: "No lock is left held on any path (R-LOCK-PAIR); the lock-order graph computed from must-hold locksets and transitive may-acquire summaries is acyclic (R-LOCK-ORDER) and nothing inside a transaction re-enters the bucket mutex (R-TXN-READS); maps and the closed flag are accessed under their mutex (R-GUARDED: a concurrent map access is a fatal error); shutdown order (R-SHUTDOWN); the DB handle is never reset and is used only behind the closed test (R-CLOSED); the feed registry is never replaced (R-FEEDMAP); no explicit panic is reachable from a goroutine root or timer callback except the converter's assertions (R-BG-PANIC); the done channel of a feed is closed once (R-DONE, R-LOOPVAR: a second close panics in a library goroutine); only one expiry timer is ever pending, so stop() cancels it (R-TIMER).",
+		Explanation: "No lock is left held on any path (R-LOCK-PAIR); the lock-order graph computed from must-hold locksets and transitive may-acquire summaries is acyclic (R-LOCK-ORDER) and nothing inside a transaction re-enters the bucket mutex (R-TXN-READS); maps and the closed flag are accessed under their mutex (R-GUARDED: a concurrent map access is a fatal error); shutdown order (R-SHUTDOWN); the DB handle is never reset and is used only behind the closed test (R-CLOSED); the feed registry is never replaced (R-FEEDMAP); no explicit panic is reachable from a goroutine root or timer callback except the converter's assertions (R-BG-PANIC); the done channel of a feed is closed once (R-DONE, R-LOOPVAR: a second close panics in a library goroutine); only one expiry timer is ever pending, so stop() cancels it (R-TIMER). No lock needed by a goroutine is held while waiting for that goroutine to close a channel (R-WAIT-LOCK).",
 		NotDecided:  "absence of goroutine leaks and of run-time panics in general (nil dereferences, index errors); timing.",
 	}
 	// rules that are named above but not implemented yet are dropped from the lists, so that
